@@ -73,6 +73,9 @@ func main() {
 	if w, err := strconv.Atoi(os.Getenv("VERIF_WORKERS")); err == nil && w > 0 {
 		c.Workers = w
 	}
+	if sc, err := strconv.Atoi(os.Getenv("VERIF_SCALE")); err == nil && sc > 0 {
+		c.Scale = sc
+	}
 	switch mode {
 	case "run":
 		if tier != "quick" && tier != "thorough" {
